@@ -88,6 +88,49 @@ func c04Days(w *W, y int) {
 		w.Violatef("lengths", fmt.Sprintf("doy/%d", y), "GetDaysOfYear(%d)=%d, reference %d", y, SolarUtil.GetDaysOfYear(y), ref.DaysInYear(y))
 	}
 	w.Eval(2)
+	// year and month stepping from the leap day and from the 31st: the day is kept where it exists and clamped to the last
+	// day of the month where it does not (century years, Julian-only leap years, the 30-day months)
+	for _, md := range [][2]int{{2, 29}, {1, 31}, {3, 31}, {8, 31}, {12, 31}} {
+		if !ref.Exists(y, md[0], md[1]) {
+			continue
+		}
+		s := calendar.NewSolar(y, md[0], md[1], 13, 14, 15)
+		for _, n := range []int{1, -1, 4, -4, 8, -8, 12, -12, 96, -96, 100, -100, 104, 400, -400} {
+			ty := y + n
+			if ty < minYear || ty > maxYear {
+				continue
+			}
+			want := md[1]
+			if l := ref.LastDayOfMonth(ty, md[0]); want > l {
+				want = l
+			}
+			var r *calendar.Solar
+			if pv := Call(func() { r = s.NextYear(n) }); pv != nil {
+				w.Violatef("nextyear", fmt.Sprintf("%s%+dy", ymd(y, md[0], md[1]), n), "%s.NextYear(%d) panicked: %v", ymd(y, md[0], md[1]), n, pv)
+			} else if g := stampOf(r); g.Y != ty || g.M != md[0] || g.D != want || g.H != 13 || g.Mi != 14 || g.S != 15 {
+				w.Violatef("nextyear", fmt.Sprintf("%s%+dy", ymd(y, md[0], md[1]), n), "%s.NextYear(%d) = %s, expected %s", ymd(y, md[0], md[1]), n, r.ToYmdHms(), ymd(ty, md[0], want))
+			}
+			w.Eval(1)
+		}
+		for _, n := range []int{1, -1, 2, -2, 11, -11, 12, -12, 13, 48, -48} {
+			tm := y*12 + md[0] - 1 + n
+			ty, tmo := floorDivI(tm, 12), modI(tm, 12)+1
+			if ty < minYear || ty > maxYear || (ty == 1582 && tmo == 10) {
+				continue
+			}
+			want := md[1]
+			if l := ref.LastDayOfMonth(ty, tmo); want > l {
+				want = l
+			}
+			var r *calendar.Solar
+			if pv := Call(func() { r = s.NextMonth(n) }); pv != nil {
+				w.Violatef("nextmonth", fmt.Sprintf("%s%+dm", ymd(y, md[0], md[1]), n), "%s.NextMonth(%d) panicked: %v", ymd(y, md[0], md[1]), n, pv)
+			} else if g := stampOf(r); g.Y != ty || g.M != tmo || g.D != want {
+				w.Violatef("nextmonth", fmt.Sprintf("%s%+dm", ymd(y, md[0], md[1]), n), "%s.NextMonth(%d) = %s, expected %s", ymd(y, md[0], md[1]), n, r.ToYmdHms(), ymd(ty, tmo, want))
+			}
+			w.Eval(1)
+		}
+	}
 	var prev *calendar.Solar
 	if y > minYear {
 		prev = calendar.NewSolarFromYmd(y-1, 12, 31)
